@@ -582,3 +582,21 @@ class cpu_time_limit:
         signal.signal(signal.SIGVTALRM, self.old_v)
         signal.signal(signal.SIGALRM, self.old_r)
         return False
+
+
+def child_process_guard(cpu_seconds=3600):
+    """Call at the start of every helper process a driver spawns (ProcessPoolExecutor initializer, subprocess
+    preexec_fn): the child is killed by the kernel when its parent dies (no orphaned workers spinning after a check
+    was interrupted) and when it has burnt `cpu_seconds` of CPU (a library call that never returns cannot occupy a
+    core for hours)."""
+    try:
+        import ctypes
+        import signal
+        ctypes.CDLL("libc.so.6", use_errno=True).prctl(1, signal.SIGKILL)   # PR_SET_PDEATHSIG
+    except Exception:
+        pass
+    try:
+        import resource
+        resource.setrlimit(resource.RLIMIT_CPU, (cpu_seconds, cpu_seconds + 60))
+    except Exception:
+        pass
